@@ -1,2 +1,3 @@
+@classmethod
 def spec(cls, support, loc, scale):
     return torch.log(cls.pdf(support, loc, scale))
